@@ -60,3 +60,1337 @@ Proof.
   apply andb_true_iff in H. destruct H as [_ H].
   eapply wf_entries_fields_in. exact H.
 Qed.
+
+(* ---- induction principle for mergers (nested through the schema list) ------------------ *)
+
+Section MergerInd.
+  Variable P : merger -> Prop.
+  Hypothesis H_fc : P MForbidChange.
+  Hypothesis H_fb : P MForbid.
+  Hypothesis H_uf : P MUseFirst.
+  Hypothesis H_ul : P MUseLast.
+  Hypothesis H_cc : P MConcat.
+  Hypothesis H_un : P MUnite.
+  Hypothesis H_mm : forall sch, Forall (fun p => P (snd p)) sch -> P (MMerge sch).
+  Hypothesis H_dm : forall m, P m -> P (MDictMerge m).
+  Fixpoint merger_ind' (m : merger) : P m :=
+    match m with
+    | MForbidChange => H_fc
+    | MForbid => H_fb
+    | MUseFirst => H_uf
+    | MUseLast => H_ul
+    | MConcat => H_cc
+    | MUnite => H_un
+    | MMerge sch =>
+      H_mm sch ((fix go (l : list (string * merger)) : Forall (fun p => P (snd p)) l :=
+                   match l with
+                   | [] => Forall_nil _
+                   | p :: r => Forall_cons p (merger_ind' (snd p)) (go r)
+                   end) sch)
+    | MDictMerge vm => H_dm vm (merger_ind' vm)
+    end.
+End MergerInd.
+
+(* ---- association lists ---------------------------------------------------------------- *)
+
+Lemma lookup_In : forall (A : Type) f (l : list (string * A)) v, lookup f l = Some v -> In (f, v) l.
+Proof.
+  intros A f l v. induction l as [|[g w] r IH]; cbn; intros H.
+  - discriminate.
+  - destruct (String.eqb f g) eqn:E.
+    + apply String.eqb_eq in E. injection H as H. subst. left. reflexivity.
+    + right. apply IH. exact H.
+Qed.
+
+Lemma Forall_lookup : forall (A : Type) (P : A -> Prop) f (l : list (string * A)) v,
+  Forall (fun p => P (snd p)) l -> lookup f l = Some v -> P v.
+Proof.
+  intros A P f l v HF HL. apply lookup_In in HL. rewrite Forall_forall in HF.
+  apply (HF _ HL).
+Qed.
+
+Lemma lookup_app : forall (A : Type) f (l1 l2 : list (string * A)),
+  lookup f (l1 ++ l2) = match lookup f l1 with Some v => Some v | None => lookup f l2 end.
+Proof.
+  intros A f l1 l2. induction l1 as [|[g w] r IH]; cbn.
+  - reflexivity.
+  - destruct (String.eqb f g); [reflexivity|exact IH].
+Qed.
+
+Lemma lookup_filter_key : forall (A : Type) (p : string -> bool) f (l : list (string * A)),
+  lookup f (filter (fun e => p (fst e)) l) = if p f then lookup f l else None.
+Proof.
+  intros A p f l. induction l as [|[g w] r IH]; cbn.
+  - destruct (p f); reflexivity.
+  - destruct (p g) eqn:Eg; cbn.
+    + destruct (String.eqb f g) eqn:E.
+      * apply String.eqb_eq in E. subst. rewrite Eg. reflexivity.
+      * exact IH.
+    + destruct (String.eqb f g) eqn:E.
+      * apply String.eqb_eq in E. subst. rewrite Eg in *. exact IH.
+      * exact IH.
+Qed.
+
+Lemma nodupb_NoDup : forall l, nodupb l = true -> NoDup l.
+Proof.
+  induction l as [|x r IH]; cbn; intros H.
+  - constructor.
+  - apply andb_true_iff in H. destruct H as [H1 H2]. constructor.
+    + intros Hin. apply negb_true_iff in H1.
+      assert (existsb (String.eqb x) r = true) as C.
+      { apply existsb_exists. exists x. split; [exact Hin|apply String.eqb_refl]. }
+      rewrite C in H1. discriminate.
+    + apply IH. exact H2.
+Qed.
+
+Lemma lookup_None_notin : forall (A : Type) f (l : list (string * A)),
+  lookup f l = None -> ~ In f (keys l).
+Proof.
+  intros A f l. induction l as [|[g w] r IH]; cbn; intros H.
+  - intros [].
+  - destruct (String.eqb f g) eqn:E; [discriminate|].
+    intros [C|C].
+    + subst. rewrite String.eqb_refl in E. discriminate.
+    + apply (IH H C).
+Qed.
+
+Lemma notin_lookup_None : forall (A : Type) f (l : list (string * A)),
+  ~ In f (keys l) -> lookup f l = None.
+Proof.
+  intros A f l. induction l as [|[g w] r IH]; cbn; intros H.
+  - reflexivity.
+  - destruct (String.eqb f g) eqn:E.
+    + apply String.eqb_eq in E. subst. exfalso. apply H. left. reflexivity.
+    + apply IH. intros C. apply H. right. exact C.
+Qed.
+
+Lemma NoDup_In_lookup : forall (A : Type) f v (l : list (string * A)),
+  NoDup (keys l) -> In (f, v) l -> lookup f l = Some v.
+Proof.
+  intros A f v l. induction l as [|[g w] r IH]; cbn; intros HN HI.
+  - destruct HI.
+  - inversion HN as [|? ? Hnot HN']. subst. destruct HI as [HI|HI].
+    + injection HI as H1 H2. subst. rewrite String.eqb_refl. reflexivity.
+    + destruct (String.eqb f g) eqn:E.
+      * apply String.eqb_eq in E. subst. exfalso. apply Hnot.
+        change g with (fst (g, v)). apply in_map. exact HI.
+      * apply IH; assumption.
+Qed.
+
+(* ---- atoms, Python == ------------------------------------------------------------------ *)
+
+Lemma atom_eqb_eq : forall a b, atom_eqb a b = true <-> a = b.
+Proof.
+  intros a b. destruct a, b; cbn; split; intros H; try discriminate; try reflexivity.
+  - apply Z.eqb_eq in H. subst. reflexivity.
+  - injection H as H. subst. apply Z.eqb_refl.
+  - apply Bool.eqb_prop in H. subst. reflexivity.
+  - injection H as H. subst. apply Bool.eqb_reflx.
+  - apply String.eqb_eq in H. subst. reflexivity.
+  - injection H as H. subst. apply String.eqb_refl.
+  - apply String.eqb_eq in H. subst. reflexivity.
+  - injection H as H. subst. apply String.eqb_refl.
+Qed.
+
+Lemma atom_eqb_refl : forall a, atom_eqb a a = true.
+Proof. intros a. apply atom_eqb_eq. reflexivity. Qed.
+
+Lemma atoms_eqb_eq : forall a b, atoms_eqb a b = true <-> a = b.
+Proof.
+  induction a as [|x a IH]; destruct b as [|y b]; cbn; split; intros H; try discriminate; try reflexivity.
+  - apply andb_true_iff in H. destruct H as [H1 H2]. apply atom_eqb_eq in H1. apply IH in H2.
+    subst. reflexivity.
+  - injection H as H1 H2. subst. rewrite atom_eqb_refl. cbn. apply IH. reflexivity.
+Qed.
+
+Lemma amem_In : forall x l, amem x l = true <-> In x l.
+Proof.
+  intros x l. unfold amem. rewrite existsb_exists. split.
+  - intros [y [Hy E]]. apply atom_eqb_eq in E. subst. exact Hy.
+  - intros H. exists x. split; [exact H|apply atom_eqb_refl].
+Qed.
+
+Lemma subset_spec : forall a b, subset a b = true <-> (forall x, In x a -> In x b).
+Proof.
+  intros a b. unfold subset. rewrite forallb_forall. split.
+  - intros H x Hx. apply amem_In. apply H. exact Hx.
+  - intros H x Hx. apply amem_In. apply H. exact Hx.
+Qed.
+
+Lemma union_In : forall x a b, In x (union a b) <-> In x a \/ In x b.
+Proof.
+  intros x a b. unfold union. rewrite in_app_iff, filter_In. split.
+  - intros [H|[H _]]; [left|right]; exact H.
+  - intros [H|H]; [left; exact H|].
+    destruct (amem x a) eqn:E.
+    + left. apply amem_In. exact E.
+    + right. split; [exact H|reflexivity].
+Qed.
+
+(* value_eqb is a partial equivalence; reflexive on the values single-valued fields hold *)
+Definition plain (v : value) : bool :=
+  match v with VAtom _ | VList _ | VSet _ => true | _ => false end.
+
+Lemma value_eqb_plain : forall x y, value_eqb x y = true -> plain x = true /\ plain y = true.
+Proof. intros x y. destruct x, y; cbn; intros H; try discriminate; split; reflexivity. Qed.
+
+Lemma value_eqb_refl : forall x, plain x = true -> value_eqb x x = true.
+Proof.
+  intros x. destruct x; cbn; intros H; try discriminate.
+  - apply atom_eqb_refl.
+  - apply atoms_eqb_eq. reflexivity.
+  - assert (subset l l = true) as S by (apply subset_spec; auto). rewrite S. reflexivity.
+Qed.
+
+Lemma value_eqb_sym : forall x y, value_eqb x y = true -> value_eqb y x = true.
+Proof.
+  intros x y. destruct x, y; cbn; intros H; try discriminate.
+  - apply atom_eqb_eq in H. subst. apply atom_eqb_refl.
+  - apply atoms_eqb_eq in H. subst. apply atoms_eqb_eq. reflexivity.
+  - apply andb_true_iff in H. destruct H as [H1 H2]. rewrite H1, H2. reflexivity.
+Qed.
+
+Lemma value_eqb_trans : forall x y z, value_eqb x y = true -> value_eqb y z = true -> value_eqb x z = true.
+Proof.
+  intros x y z. destruct x, y; cbn; intros H; try discriminate; destruct z; cbn; intros H'; try discriminate.
+  - apply atom_eqb_eq in H. apply atom_eqb_eq in H'. subst. apply atom_eqb_refl.
+  - apply atoms_eqb_eq in H. apply atoms_eqb_eq in H'. subst. apply atoms_eqb_eq. reflexivity.
+  - apply andb_true_iff in H. destruct H as [H1 H2]. apply andb_true_iff in H'. destruct H' as [H3 H4].
+    rewrite subset_spec in *. apply andb_true_iff. split; apply subset_spec; auto.
+Qed.
+
+(* on plain values veqb is value_eqb for every merger but Concat-as-multiset *)
+Lemma veqb_of_value_eqb : forall cm m x y,
+  m <> MConcat -> value_eqb x y = true -> veqb cm m x y = true.
+Proof.
+  intros cm m x y Hm H. destruct x, y; cbn in *; try discriminate; try exact H.
+  destruct m; try exact H. exfalso. apply Hm. reflexivity.
+Qed.
+
+(* ---- objects and dicts as finite maps: merge is pointwise ---------------------------------- *)
+
+Definition mbind {A B : Type} (r : res A) (f : A -> res B) : res B :=
+  match r with Ok x => f x | Err e => Err e end.
+
+Definition merge_entries (rec : merger -> value -> value -> res value) (mof : string -> option merger)
+           (fx fy : entries) : res entries :=
+  match merge_old rec mof fy fx with
+  | Err e => Err e
+  | Ok l => Ok (l ++ merge_new mof fx fy)
+  end.
+
+(* Merger.__call__ on one attribute: NOT_SET = None *)
+Definition omerge (rec : merger -> value -> value -> res value) (om : option merger)
+           (ox oy : option value) : res (option value) :=
+  match ox, oy with
+  | None, None => Ok None
+  | Some x, None => Ok (Some x)
+  | None, Some y => match om with Some _ => Ok (Some y) | None => Ok None end
+  | Some x, Some y =>
+    match om with
+    | Some m => match rec m x y with Ok v => Ok (Some v) | Err e => Err e end
+    | None => Ok (Some x)
+    end
+  end.
+
+Section EntriesLemmas.
+  Variable rec : merger -> value -> value -> res value.
+  Variable mof : string -> option merger.
+
+  Lemma merge_old_spec : forall fy fx l,
+    merge_old rec mof fy fx = Ok l ->
+    keys l = keys fx /\
+    forall f, match lookup f fx with
+              | None => lookup f l = None
+              | Some vx => exists v, merge_one rec mof fy f vx = Ok v /\ lookup f l = Some v
+              end.
+  Proof.
+    intros fy fx. induction fx as [|[g vx] r IH]; cbn; intros l H.
+    - injection H as H. subst. split; [reflexivity|]. intros f. reflexivity.
+    - destruct (merge_one rec mof fy g vx) as [v|e] eqn:E1; [|discriminate].
+      destruct (merge_old rec mof fy r) as [r'|e] eqn:E2; [|discriminate].
+      injection H as H. subst. destruct (IH r' eq_refl) as [IHk IHl]. split.
+      + unfold keys in *. cbn. rewrite IHk. reflexivity.
+      + intros f. cbn. destruct (String.eqb f g) eqn:E.
+        * apply String.eqb_eq in E. subst. exists v. split; [exact E1|reflexivity].
+        * apply IHl.
+  Qed.
+
+  Lemma merge_old_err : forall fy fx e,
+    merge_old rec mof fy fx = Err e ->
+    exists f vx, In (f, vx) fx /\ merge_one rec mof fy f vx = Err e.
+  Proof.
+    intros fy fx. induction fx as [|[g vx] r IH]; cbn; intros e H.
+    - discriminate.
+    - destruct (merge_one rec mof fy g vx) as [v|e1] eqn:E1.
+      + destruct (merge_old rec mof fy r) as [r'|e2] eqn:E2; [discriminate|].
+        injection H as H. subst. destruct (IH e eq_refl) as [f [v' [Hin Hm]]].
+        exists f, v'. split; [right; exact Hin|exact Hm].
+      + injection H as H. subst. exists g, vx. split; [left; reflexivity|exact E1].
+  Qed.
+
+  Lemma lookup_merge_new : forall fx fy f,
+    lookup f (merge_new mof fx fy) =
+    match mof f with
+    | Some _ => if mem f fx then None else lookup f fy
+    | None => None
+    end.
+  Proof.
+    intros fx fy f. unfold merge_new.
+    rewrite (lookup_filter_key _ (fun g => match mof g with Some _ => negb (mem g fx) | None => false end)).
+    destruct (mof f); [|reflexivity]. destruct (mem f fx); reflexivity.
+  Qed.
+
+  Lemma merge_entries_lookup : forall fx fy r,
+    merge_entries rec mof fx fy = Ok r ->
+    forall f, omerge rec (mof f) (lookup f fx) (lookup f fy) = Ok (lookup f r).
+  Proof.
+    intros fx fy r H f. unfold merge_entries in H.
+    destruct (merge_old rec mof fy fx) as [l|e] eqn:E; [|discriminate].
+    injection H as H. subst. destruct (merge_old_spec _ _ _ E) as [_ Hl]. specialize (Hl f).
+    rewrite lookup_app, lookup_merge_new. unfold mem.
+    destruct (lookup f fx) as [vx|] eqn:Ex.
+    - destruct Hl as [v [Hm Hv]]. rewrite Hv. unfold merge_one in Hm. cbn.
+      destruct (mof f) as [m|].
+      + destruct (lookup f fy) as [vy|].
+        * rewrite Hm. reflexivity.
+        * injection Hm as Hm. subst. reflexivity.
+      + injection Hm as Hm. subst. destruct (lookup f fy); reflexivity.
+    - rewrite Hl. cbn. destruct (lookup f fy) as [vy|]; destruct (mof f); reflexivity.
+  Qed.
+
+  Lemma merge_entries_err : forall fx fy e,
+    NoDup (keys fx) ->
+    merge_entries rec mof fx fy = Err e ->
+    exists f, omerge rec (mof f) (lookup f fx) (lookup f fy) = Err e.
+  Proof.
+    intros fx fy e HN H. unfold merge_entries in H.
+    destruct (merge_old rec mof fy fx) as [l|e1] eqn:E; [discriminate|].
+    injection H as H. subst. destruct (merge_old_err _ _ _ E) as [f [vx [Hin Hm]]].
+    exists f. rewrite (NoDup_In_lookup _ _ _ _ HN Hin). unfold merge_one in Hm. cbn.
+    destruct (mof f) as [m|]; [|discriminate].
+    destruct (lookup f fy) as [vy|]; [|discriminate]. rewrite Hm. reflexivity.
+  Qed.
+
+  Lemma keys_filter_sub : forall (p : string * value -> bool) (l : entries) f,
+    In f (keys (filter p l)) -> In f (keys l).
+  Proof.
+    intros p l f. unfold keys. rewrite !in_map_iff. intros [x [Hx Hin]].
+    apply filter_In in Hin. exists x. split; [exact Hx|apply Hin].
+  Qed.
+
+  Lemma NoDup_keys_filter : forall (p : string * value -> bool) (l : entries),
+    NoDup (keys l) -> NoDup (keys (filter p l)).
+  Proof.
+    intros p l. induction l as [|[g v] r IH]; cbn; intros H.
+    - constructor.
+    - inversion H as [|? ? Hn Hr]. subst. destruct (p (g, v)); cbn.
+      + constructor; [|apply IH; exact Hr]. intros C. apply Hn. eapply keys_filter_sub. exact C.
+      + apply IH. exact Hr.
+  Qed.
+
+  Lemma NoDup_app_intro : forall (A : Type) (l1 l2 : list A),
+    NoDup l1 -> NoDup l2 -> (forall x, In x l1 -> ~ In x l2) -> NoDup (l1 ++ l2).
+  Proof.
+    intros A l1 l2 H1 H2 HD. induction l1 as [|x r IH]; cbn.
+    - exact H2.
+    - inversion H1 as [|? ? Hn Hr]. subst. constructor.
+      + rewrite in_app_iff. intros [C|C]; [apply Hn; exact C|]. apply (HD x); [left; reflexivity|exact C].
+      + apply IH; [exact Hr|]. intros y Hy. apply HD. right. exact Hy.
+  Qed.
+
+  Lemma In_keys_mem : forall (A : Type) f (l : list (string * A)), In f (keys l) -> mem f l = true.
+  Proof.
+    intros A f l H. unfold mem. destruct (lookup f l) eqn:E; [reflexivity|].
+    exfalso. apply (lookup_None_notin _ _ _ E H).
+  Qed.
+
+  Lemma merge_entries_nodup : forall fx fy r,
+    NoDup (keys fx) -> NoDup (keys fy) ->
+    merge_entries rec mof fx fy = Ok r -> NoDup (keys r).
+  Proof.
+    intros fx fy r Hx Hy H. unfold merge_entries in H.
+    destruct (merge_old rec mof fy fx) as [l|e] eqn:E; [|discriminate].
+    injection H as H. subst. destruct (merge_old_spec _ _ _ E) as [Hk _].
+    unfold keys in *. rewrite map_app. apply NoDup_app_intro.
+    - rewrite Hk. exact Hx.
+    - apply NoDup_keys_filter. exact Hy.
+    - intros f Hf Hf'. rewrite Hk in Hf. unfold merge_new in Hf'.
+      apply in_map_iff in Hf'. destruct Hf' as [[g v] [Hg Hin]]. cbn in Hg. subst g.
+      apply filter_In in Hin. destruct Hin as [_ Hp]. cbn in Hp.
+      destruct (mof f); [|discriminate].
+      rewrite (In_keys_mem _ _ _ Hf) in Hp. discriminate.
+  Qed.
+
+  (* ---- n-ary folds ---- *)
+
+  Definition efold (first : entries) (others : list entries) : res entries :=
+    fold_left (fun a o => mbind a (fun u => merge_entries rec mof u o)) others (Ok first).
+
+  Lemma efold_err_acc : forall others e,
+    fold_left (fun a o => mbind a (fun u => merge_entries rec mof u o)) others (Err e) = Err e.
+  Proof. induction others as [|o r IH]; cbn; intros e; [reflexivity|apply IH]. Qed.
+
+  Lemma efold_cons : forall first b rest,
+    efold first (b :: rest) =
+    match merge_entries rec mof first b with Ok ab => efold ab rest | Err e => Err e end.
+  Proof.
+    intros first b rest. unfold efold. cbn.
+    destruct (merge_entries rec mof first b); [reflexivity|apply efold_err_acc].
+  Qed.
+End EntriesLemmas.
+
+Definition vfold (op : value -> value -> res value) (acc : res value) (l : list value) : res value :=
+  fold_left (fun a v => mbind a (fun u => op u v)) l acc.
+
+Definition nfold (op : value -> value -> res value) (l : list value) : res (option value) :=
+  match l with
+  | [] => Ok None
+  | v :: r => match vfold op (Ok v) r with Ok u => Ok (Some u) | Err e => Err e end
+  end.
+
+Lemma vfold_err_acc : forall op l e, vfold op (Err e) l = Err e.
+Proof. intros op. induction l as [|v r IH]; cbn; intros e; [reflexivity|apply IH]. Qed.
+
+Definition field_vals (f : string) (e : entries) : list value :=
+  match lookup f e with Some v => [v] | None => [] end.
+Definition field_list (f : string) (es : list entries) : list value := flat_map (field_vals f) es.
+
+Section NaryLemmas.
+  Variable rec : merger -> value -> value -> res value.
+  Variable mof : string -> option merger.
+
+  Lemma nfold_step : forall first b ab rest f m,
+    mof f = Some m ->
+    merge_entries rec mof first b = Ok ab ->
+    nfold (rec m) (field_list f (first :: b :: rest)) = nfold (rec m) (field_list f (ab :: rest)).
+  Proof.
+    intros first b ab rest f m Hm H.
+    pose proof (merge_entries_lookup rec mof _ _ _ H f) as L. rewrite Hm in L.
+    unfold field_list. cbn [flat_map]. unfold field_vals at 1 2 4.
+    destruct (lookup f first) as [vx|]; destruct (lookup f b) as [vy|]; cbn in L.
+    - destruct (rec m vx vy) as [v|e] eqn:E; [|discriminate]. injection L as L. rewrite <- L.
+      cbn. unfold vfold. cbn. rewrite E. reflexivity.
+    - injection L as L. rewrite <- L. reflexivity.
+    - injection L as L. rewrite <- L. reflexivity.
+    - injection L as L. rewrite <- L. reflexivity.
+  Qed.
+
+  Lemma efold_lookup : forall others first r,
+    efold rec mof first others = Ok r ->
+    forall f m, mof f = Some m ->
+      nfold (rec m) (field_list f (first :: others)) = Ok (lookup f r).
+  Proof.
+    induction others as [|b rest IH]; intros first r H f m Hm.
+    - unfold efold in H. cbn in H. injection H as H. subst.
+      unfold field_list. cbn. rewrite app_nil_r. unfold field_vals.
+      destruct (lookup f r); reflexivity.
+    - rewrite efold_cons in H.
+      destruct (merge_entries rec mof first b) as [ab|e] eqn:E; [|discriminate].
+      rewrite (nfold_step _ _ _ _ _ _ Hm E). apply IH; assumption.
+  Qed.
+
+  Lemma efold_err : forall others first e,
+    NoDup (keys first) -> Forall (fun o => NoDup (keys o)) others ->
+    efold rec mof first others = Err e ->
+    exists f m e', mof f = Some m /\ nfold (rec m) (field_list f (first :: others)) = Err e'.
+  Proof.
+    induction others as [|b rest IH]; intros first e HN HF H.
+    - unfold efold in H. cbn in H. discriminate.
+    - rewrite efold_cons in H. inversion HF as [|? ? Hb Hrest]. subst.
+      destruct (merge_entries rec mof first b) as [ab|e1] eqn:E.
+      + assert (NoDup (keys ab)) as Hab by (apply (merge_entries_nodup rec mof first b ab HN Hb E)).
+        destruct (IH ab e Hab Hrest H) as [f [m [e' [Hm Hn]]]].
+        exists f, m, e'. split; [exact Hm|]. rewrite (nfold_step _ _ _ _ _ _ Hm E). exact Hn.
+      + destruct (merge_entries_err rec mof _ _ _ HN E) as [f Hf].
+        destruct (mof f) as [m|] eqn:Hm.
+        * destruct (lookup f first) as [vx|] eqn:Ex; destruct (lookup f b) as [vy|] eqn:Ey;
+            cbn in Hf; try discriminate.
+          destruct (rec m vx vy) as [v|e2] eqn:E2; [discriminate|].
+          exists f, m, e2. split; [exact Hm|].
+          unfold field_list. cbn [flat_map]. unfold field_vals at 1 2. rewrite Ex, Ey.
+          cbn. unfold vfold. cbn. rewrite E2. fold (vfold (rec m) (Err e2) (flat_map (field_vals f) rest)).
+          rewrite vfold_err_acc. reflexivity.
+        * destruct (lookup f first); destruct (lookup f b); cbn in Hf; discriminate.
+  Qed.
+
+  Lemma efold_nodup : forall others first r,
+    NoDup (keys first) -> Forall (fun o => NoDup (keys o)) others ->
+    efold rec mof first others = Ok r -> NoDup (keys r).
+  Proof.
+    induction others as [|b rest IH]; intros first r HN HF H.
+    - unfold efold in H. cbn in H. injection H as H. subst. exact HN.
+    - rewrite efold_cons in H. inversion HF as [|? ? Hb Hrest]. subst.
+      destruct (merge_entries rec mof first b) as [ab|e1] eqn:E; [|discriminate].
+      apply (IH ab r); [apply (merge_entries_nodup rec mof first b ab HN Hb E)|exact Hrest|exact H].
+  Qed.
+
+  (* keys of the result come from the operands *)
+  Lemma merge_entries_key_src : forall fx fy r f,
+    merge_entries rec mof fx fy = Ok r -> lookup f fx = None -> lookup f fy = None -> lookup f r = None.
+  Proof.
+    intros fx fy r f H Hx Hy. pose proof (merge_entries_lookup rec mof _ _ _ H f) as L.
+    rewrite Hx, Hy in L. cbn in L. injection L as L. symmetry. exact L.
+  Qed.
+
+  Lemma efold_key_src : forall others first r f,
+    efold rec mof first others = Ok r ->
+    lookup f first = None -> Forall (fun o => lookup f o = None) others -> lookup f r = None.
+  Proof.
+    induction others as [|b rest IH]; intros first r f H Hx HF.
+    - unfold efold in H. cbn in H. injection H as H. subst. exact Hx.
+    - rewrite efold_cons in H. inversion HF as [|? ? Hb Hrest]. subst.
+      destruct (merge_entries rec mof first b) as [ab|e1] eqn:E; [|discriminate].
+      apply (IH ab r f H); [eapply merge_entries_key_src; eassumption|exact Hrest].
+  Qed.
+End NaryLemmas.
+
+(* ---- order independence of n-ary merges ------------------------------------------------------ *)
+
+Definition oveqb (cm : bool) (m : merger) (a b : option value) : bool :=
+  match a, b with
+  | Some x, Some y => veqb cm m x y
+  | None, None => true
+  | _, _ => false
+  end.
+
+(* same outcome: both errors, or both defined and equal (modulo Concat order when cm) *)
+Definition req (cm : bool) (m : merger) (a b : res (option value)) : Prop :=
+  match a, b with
+  | Ok x, Ok y => oveqb cm m x y = true
+  | Err _, Err _ => True
+  | _, _ => False
+  end.
+
+(* -- ForbidChange -- *)
+
+Lemma fc_fold : forall rest v,
+  vfold (merge_val MForbidChange) (Ok v) rest =
+  if forallb (value_eqb v) rest then Ok v else Err EForbidden.
+Proof.
+  induction rest as [|w r IH]; intros v; cbn.
+  - reflexivity.
+  - unfold vfold in *. cbn.
+    assert (merge_val MForbidChange v w = if value_eqb v w then Ok v else Err EForbidden) as E
+      by (destruct v; reflexivity).
+    rewrite E. destruct (value_eqb v w); cbn.
+    + apply IH.
+    + apply (vfold_err_acc (merge_val MForbidChange)).
+Qed.
+
+Lemma alleq_perm : forall v rest v' rest',
+  plain v = true ->
+  Permutation (v :: rest) (v' :: rest') ->
+  forallb (value_eqb v) rest = true ->
+  forallb (value_eqb v') rest' = true /\ value_eqb v v' = true.
+Proof.
+  intros v rest v' rest' Hp HP H.
+  assert (Forall (fun w => value_eqb v w = true) (v :: rest)) as F.
+  { constructor; [apply value_eqb_refl; exact Hp|]. apply Forall_forall. rewrite forallb_forall in H. exact H. }
+  pose proof (Permutation_Forall HP F) as F'. inversion F' as [|? ? Hv Hr]. subst. split; [|exact Hv].
+  apply forallb_forall. intros w Hw. rewrite Forall_forall in Hr.
+  apply value_eqb_trans with v; [apply value_eqb_sym; exact Hv|apply Hr; exact Hw].
+Qed.
+
+Lemma wf_plain : forall m v,
+  match m with MForbidChange | MForbid | MUseFirst | MUseLast => True | _ => False end ->
+  wf_val m v = true -> plain v = true.
+Proof. intros m v Hm H. destruct m; try contradiction; destruct v; cbn in *; try discriminate; reflexivity. Qed.
+
+Lemma perm_cons_inv_shape : forall (A : Type) (v : A) rest l', Permutation (v :: rest) l' ->
+  exists v' rest', l' = v' :: rest'.
+Proof.
+  intros A v rest l' HP. destruct l' as [|v' rest'].
+  - apply Permutation_sym in HP. apply Permutation_nil in HP. discriminate.
+  - exists v', rest'. reflexivity.
+Qed.
+
+Lemma nfold_perm_fc : forall l l',
+  Forall (fun v => wf_val MForbidChange v = true) l -> Permutation l l' ->
+  req true MForbidChange (nfold (merge_val MForbidChange) l) (nfold (merge_val MForbidChange) l').
+Proof.
+  intros l l' HW HP. destruct l as [|v rest].
+  - apply Permutation_nil in HP. subst. cbn. reflexivity.
+  - destruct (perm_cons_inv_shape _ _ _ _ HP) as [v' [rest' El]]. subst l'.
+    assert (Forall (fun v => wf_val MForbidChange v = true) (v' :: rest')) as HW' by (apply (Permutation_Forall HP HW)).
+    assert (plain v = true) as Hp by (inversion HW; subst; eapply wf_plain; [|eassumption]; exact I).
+    assert (plain v' = true) as Hp' by (inversion HW'; subst; eapply wf_plain; [|eassumption]; exact I).
+    cbn [nfold]. rewrite !fc_fold.
+    destruct (forallb (value_eqb v) rest) eqn:E.
+    + destruct (alleq_perm _ _ _ _ Hp HP E) as [E' Hv]. rewrite E'. cbn.
+      apply veqb_of_value_eqb; [discriminate|exact Hv].
+    + destruct (forallb (value_eqb v') rest') eqn:E'; [|exact I].
+      destruct (alleq_perm _ _ _ _ Hp' (Permutation_sym HP) E') as [C _]. rewrite C in E. discriminate.
+Qed.
+
+(* -- Forbid -- *)
+
+Lemma fb_fold : forall rest v,
+  vfold (merge_val MForbid) (Ok v) rest = match rest with [] => Ok v | _ => Err EForbidden end.
+Proof.
+  intros rest v. destruct rest as [|w r]; [reflexivity|].
+  unfold vfold. cbn. assert (merge_val MForbid v w = Err EForbidden) as E by (destruct v; reflexivity).
+  rewrite E. apply (vfold_err_acc (merge_val MForbid)).
+Qed.
+
+Lemma nfold_perm_fb : forall l l',
+  Forall (fun v => wf_val MForbid v = true) l -> Permutation l l' ->
+  req true MForbid (nfold (merge_val MForbid) l) (nfold (merge_val MForbid) l').
+Proof.
+  intros l l' HW HP. destruct l as [|v rest].
+  - apply Permutation_nil in HP. subst. cbn. reflexivity.
+  - destruct rest as [|w r].
+    + apply Permutation_length_1_inv in HP. subst. cbn.
+      apply veqb_of_value_eqb; [discriminate|]. apply value_eqb_refl.
+      inversion HW; subst. eapply wf_plain; [|eassumption]. exact I.
+    + destruct (perm_cons_inv_shape _ _ _ _ HP) as [v' [rest' El]]. subst l'.
+      cbn [nfold]. rewrite !fb_fold. destruct rest' as [|w' r'].
+      * apply Permutation_length in HP. cbn in HP. discriminate.
+      * exact I.
+Qed.
+
+(* -- Concat -- *)
+
+Definition unlist (v : value) : list atom := match v with VList a => a | _ => [] end.
+
+Lemma cc_fold : forall rest a,
+  Forall (fun v => wf_val MConcat v = true) rest ->
+  vfold (merge_val MConcat) (Ok (VList a)) rest = Ok (VList (a ++ flat_map unlist rest)).
+Proof.
+  induction rest as [|w r IH]; intros a HW.
+  - cbn. rewrite app_nil_r. reflexivity.
+  - inversion HW as [|? ? Hw Hr]. subst. destruct w; cbn in Hw; try discriminate.
+    unfold vfold in *. cbn. rewrite IH by exact Hr. rewrite app_assoc. reflexivity.
+Qed.
+
+Lemma acount_perm : forall x a b, Permutation a b -> acount x a = acount x b.
+Proof.
+  intros x a b HP. unfold acount. induction HP; cbn.
+  - reflexivity.
+  - destruct (atom_eqb x x0); cbn; rewrite IHHP; reflexivity.
+  - destruct (atom_eqb x y); destruct (atom_eqb x x0); reflexivity.
+  - rewrite IHHP1. exact IHHP2.
+Qed.
+
+Lemma perm_eqb_of_Permutation : forall a b, Permutation a b -> perm_eqb a b = true.
+Proof.
+  intros a b HP. unfold perm_eqb. apply andb_true_iff. split.
+  - apply Nat.eqb_eq. apply Permutation_length. exact HP.
+  - apply forallb_forall. intros x _. apply Nat.eqb_eq. apply acount_perm. exact HP.
+Qed.
+
+Lemma nfold_cc : forall l,
+  Forall (fun v => wf_val MConcat v = true) l -> l <> [] ->
+  nfold (merge_val MConcat) l = Ok (Some (VList (flat_map unlist l))).
+Proof.
+  intros l HW Hne. destruct l as [|v rest]; [contradiction|].
+  inversion HW as [|? ? Hv Hr]. subst. destruct v; cbn in Hv; try discriminate.
+  cbn [nfold]. rewrite cc_fold by exact Hr. reflexivity.
+Qed.
+
+Lemma nfold_perm_cc : forall l l',
+  Forall (fun v => wf_val MConcat v = true) l -> Permutation l l' ->
+  req true MConcat (nfold (merge_val MConcat) l) (nfold (merge_val MConcat) l').
+Proof.
+  intros l l' HW HP. destruct l as [|v rest].
+  - apply Permutation_nil in HP. subst. cbn. reflexivity.
+  - destruct (perm_cons_inv_shape _ _ _ _ HP) as [v' [rest' El]]. subst l'.
+    rewrite (nfold_cc (v :: rest)) by (try exact HW; discriminate).
+    rewrite (nfold_cc (v' :: rest')) by (try apply (Permutation_Forall HP HW); discriminate).
+    change (perm_eqb (flat_map unlist (v :: rest)) (flat_map unlist (v' :: rest')) = true).
+    apply perm_eqb_of_Permutation. apply (Permutation_flat_map unlist HP).
+Qed.
+
+(* -- Unite -- *)
+
+Definition unset (v : value) : list atom := match v with VSet a => a | _ => [] end.
+
+Lemma un_fold : forall rest a,
+  Forall (fun v => wf_val MUnite v = true) rest ->
+  exists s, vfold (merge_val MUnite) (Ok (VSet a)) rest = Ok (VSet s) /\
+            forall x, In x s <-> In x a \/ In x (flat_map unset rest).
+Proof.
+  induction rest as [|w r IH]; intros a HW.
+  - exists a. split; [reflexivity|]. intros x. cbn. tauto.
+  - inversion HW as [|? ? Hw Hr]. subst. destruct w; cbn in Hw; try discriminate.
+    destruct (IH (union a l) Hr) as [s [Hs Hx]]. exists s. split.
+    + unfold vfold in *. cbn. exact Hs.
+    + intros x. rewrite Hx. rewrite union_In. cbn. rewrite in_app_iff. tauto.
+Qed.
+
+Lemma nfold_perm_un : forall l l',
+  Forall (fun v => wf_val MUnite v = true) l -> Permutation l l' ->
+  req true MUnite (nfold (merge_val MUnite) l) (nfold (merge_val MUnite) l').
+Proof.
+  intros l l' HW HP. destruct l as [|v rest].
+  - apply Permutation_nil in HP. subst. cbn. reflexivity.
+  - destruct (perm_cons_inv_shape _ _ _ _ HP) as [v' [rest' El]]. subst l'.
+    pose proof (Permutation_Forall HP HW) as HW'.
+    inversion HW as [|? ? Hv Hr]. subst. inversion HW' as [|? ? Hv' Hr']. subst.
+    destruct v; cbn in Hv; try discriminate. destruct v'; cbn in Hv'; try discriminate.
+    cbn [nfold].
+    destruct (un_fold rest l Hr) as [s [Hs Hx]]. destruct (un_fold rest' l0 Hr') as [s' [Hs' Hx']].
+    rewrite Hs, Hs'. cbn.
+    assert (forall x, In x s <-> In x s') as EQ.
+    { intros x. rewrite Hx, Hx'.
+      change (In x l \/ In x (flat_map unset rest)) with (In x (unset (VSet l)) \/ In x (flat_map unset rest)).
+      change (In x l0 \/ In x (flat_map unset rest')) with (In x (unset (VSet l0)) \/ In x (flat_map unset rest')).
+      rewrite <- !in_app_iff.
+      change (unset (VSet l) ++ flat_map unset rest) with (flat_map unset (VSet l :: rest)).
+      change (unset (VSet l0) ++ flat_map unset rest') with (flat_map unset (VSet l0 :: rest')).
+      pose proof (Permutation_flat_map unset HP) as HP2.
+      split; intros Hin; [apply (Permutation_in _ HP2 Hin)|apply (Permutation_in _ (Permutation_sym HP2) Hin)]. }
+    apply andb_true_iff. split; apply subset_spec; intros x Hx0; apply EQ; exact Hx0.
+Qed.
+
+(* -- objects / dicts -- *)
+
+Lemma entries_veqb_intro : forall (rec : merger -> value -> value -> bool) (mofd : string -> merger) r r',
+  NoDup (keys r) ->
+  (forall f, match lookup f r, lookup f r' with
+             | Some v, Some v' => rec (mofd f) v v' = true
+             | None, None => True
+             | _, _ => False
+             end) ->
+  sub_entries rec mofd r' r = true /\ forallb (fun p => mem (fst p) r) r' = true.
+Proof.
+  intros rec mofd r r' HN HPt. split.
+  - assert (forall l, (forall f v, In (f, v) l -> In (f, v) r) -> sub_entries rec mofd r' l = true) as G.
+    { induction l as [|[f v] rest IH]; intros Hsub; cbn.
+      - reflexivity.
+      - assert (lookup f r = Some v) as L by (apply NoDup_In_lookup; [exact HN|apply Hsub; left; reflexivity]).
+        specialize (HPt f) as Hf. rewrite L in Hf. destruct (lookup f r') as [v'|]; [|contradiction].
+        rewrite Hf. cbn. apply IH. intros g w Hin. apply Hsub. right. exact Hin. }
+    apply G. auto.
+  - apply forallb_forall. intros [f v'] Hin. cbn. unfold mem.
+    specialize (HPt f). destruct (lookup f r); [reflexivity|].
+    destruct (lookup f r') eqn:E; [contradiction|].
+    exfalso. apply (lookup_None_notin _ _ _ E). change f with (fst (f, v')). apply in_map. exact Hin.
+Qed.
+
+Lemma wf_entries_lookup : forall (rec : merger -> value -> bool) mof e f v,
+  wf_entries rec mof e = true -> lookup f e = Some v ->
+  exists m, mof f = Some m /\ rec m v = true.
+Proof.
+  intros rec mof e f v. induction e as [|[g w] r IH]; cbn; intros HW HL.
+  - discriminate.
+  - apply andb_true_iff in HW. destruct HW as [H1 H2]. destruct (String.eqb f g) eqn:E.
+    + apply String.eqb_eq in E. injection HL as HL. subst.
+      destruct (mof g) as [m|]; [|discriminate]. exists m. split; [reflexivity|exact H1].
+    + apply IH; assumption.
+Qed.
+
+Definition wfe (mof : string -> option merger) (e : entries) : Prop :=
+  NoDup (keys e) /\ wf_entries wf_val mof e = true.
+
+Lemma field_list_wf : forall mof es f m,
+  Forall (wfe mof) es -> mof f = Some m ->
+  Forall (fun v => wf_val m v = true) (field_list f es).
+Proof.
+  intros mof es f m HW Hm. unfold field_list. apply Forall_flat_map.
+  rewrite Forall_forall in *. intros e He. destruct (HW e He) as [_ Hwf].
+  unfold field_vals. destruct (lookup f e) as [v|] eqn:E; [|constructor].
+  destruct (wf_entries_lookup _ _ _ _ _ Hwf E) as [m' [Hm' Hv]].
+  rewrite Hm in Hm'. injection Hm' as Hm'. subst. constructor; [exact Hv|constructor].
+Qed.
+
+Lemma field_absent : forall mof es f,
+  Forall (wfe mof) es -> mof f = None -> Forall (fun o => lookup f o = None) es.
+Proof.
+  intros mof es f HW Hm. rewrite Forall_forall in *. intros e He. destruct (HW e He) as [_ Hwf].
+  destruct (lookup f e) as [v|] eqn:E; [|reflexivity].
+  destruct (wf_entries_lookup _ _ _ _ _ Hwf E) as [m' [Hm' _]]. rewrite Hm in Hm'. discriminate.
+Qed.
+
+Definition eres_eq (mofd : string -> merger) (a b : res entries) : Prop :=
+  match a, b with
+  | Ok r, Ok r' => sub_entries (veqb true) mofd r' r = true /\ forallb (fun p => mem (fst p) r) r' = true
+  | Err _, Err _ => True
+  | _, _ => False
+  end.
+
+Lemma entries_perm : forall (mof : string -> option merger) (mofd : string -> merger),
+  (forall f m, mof f = Some m -> mofd f = m) ->
+  (forall f m, mof f = Some m -> forall l l',
+      Forall (fun v => wf_val m v = true) l -> Permutation l l' ->
+      req true m (nfold (merge_val m) l) (nfold (merge_val m) l')) ->
+  forall first others first' others',
+    Forall (wfe mof) (first :: others) ->
+    Permutation (first :: others) (first' :: others') ->
+    eres_eq mofd (efold merge_val mof first others) (efold merge_val mof first' others').
+Proof.
+  intros mof mofd Hmofd IHf first others first' others' HW HP.
+  pose proof (Permutation_Forall HP HW) as HW'.
+  assert (forall f, Permutation (field_list f (first :: others)) (field_list f (first' :: others'))) as PF
+    by (intros f; apply Permutation_flat_map; exact HP).
+  assert (forall es, Forall (wfe mof) es -> Forall (fun o => NoDup (keys o)) es) as ND.
+  { intros es H. eapply Forall_impl; [|exact H]. intros e [He _]. exact He. }
+  inversion HW as [|? ? Hf Ho]. subst. inversion HW' as [|? ? Hf' Ho']. subst.
+  destruct (efold merge_val mof first others) as [r|e] eqn:E;
+    destruct (efold merge_val mof first' others') as [r'|e'] eqn:E'; cbn.
+  - apply entries_veqb_intro.
+    + apply (efold_nodup merge_val mof others first r); [apply Hf|apply ND; exact Ho|exact E].
+    + intros f. destruct (mof f) as [m|] eqn:Hm.
+      * pose proof (efold_lookup merge_val mof _ _ _ E f m Hm) as L.
+        pose proof (efold_lookup merge_val mof _ _ _ E' f m Hm) as L'.
+        pose proof (IHf f m Hm _ _ (field_list_wf mof _ f m HW Hm) (PF f)) as R.
+        rewrite L, L' in R. cbn in R. rewrite (Hmofd f m Hm).
+        destruct (lookup f r); destruct (lookup f r'); cbn in R; try discriminate; try exact R; exact I.
+      * pose proof (field_absent mof _ f HW Hm) as A. pose proof (field_absent mof _ f HW' Hm) as A'.
+        inversion A; subst. inversion A'; subst.
+        rewrite (efold_key_src merge_val mof _ _ _ f E) by assumption.
+        rewrite (efold_key_src merge_val mof _ _ _ f E') by assumption. exact I.
+  - destruct (efold_err merge_val mof _ _ _ (proj1 Hf') (ND _ Ho') E') as [f [m [e2 [Hm Hn]]]].
+    pose proof (efold_lookup merge_val mof _ _ _ E f m Hm) as L.
+    pose proof (IHf f m Hm _ _ (field_list_wf mof _ f m HW Hm) (PF f)) as R.
+    unfold entries in *. rewrite L in R. rewrite Hn in R. exact R.
+  - destruct (efold_err merge_val mof _ _ _ (proj1 Hf) (ND _ Ho) E) as [f [m [e2 [Hm Hn]]]].
+    pose proof (efold_lookup merge_val mof _ _ _ E' f m Hm) as L.
+    pose proof (IHf f m Hm _ _ (field_list_wf mof _ f m HW Hm) (PF f)) as R.
+    unfold entries in *. rewrite L in R. rewrite Hn in R. exact R.
+  - exact I.
+Qed.
+
+(* ---- main induction over the merger ------------------------------------------------------------ *)
+
+Definition unobj (v : value) : entries := match v with VObj l => l | _ => [] end.
+Definition undict (v : value) : entries := match v with VDict l => l | _ => [] end.
+
+Lemma merge_val_obj : forall sch fx fy,
+  merge_val (MMerge sch) (VObj fx) (VObj fy) =
+  match merge_entries merge_val (fun f => lookup f sch) fx fy with Ok r => Ok (VObj r) | Err e => Err e end.
+Proof.
+  intros sch fx fy. unfold merge_entries. cbn.
+  destruct (merge_old merge_val (fun f => lookup f sch) fy fx); reflexivity.
+Qed.
+
+Lemma merge_val_dict : forall vm fx fy,
+  merge_val (MDictMerge vm) (VDict fx) (VDict fy) =
+  match merge_entries merge_val (fun _ => Some vm) fx fy with Ok r => Ok (VDict r) | Err e => Err e end.
+Proof.
+  intros vm fx fy. unfold merge_entries. cbn.
+  destruct (merge_old merge_val (fun _ => Some vm) fy fx); reflexivity.
+Qed.
+
+Lemma vfold_obj : forall sch es a,
+  vfold (merge_val (MMerge sch)) (Ok (VObj a)) (map VObj es) =
+  match efold merge_val (fun f => lookup f sch) a es with Ok r => Ok (VObj r) | Err e => Err e end.
+Proof.
+  intros sch. induction es as [|b rest IH]; intros a.
+  - reflexivity.
+  - rewrite efold_cons. cbn [map]. unfold vfold. cbn [fold_left mbind]. rewrite merge_val_obj.
+    destruct (merge_entries merge_val (fun f => lookup f sch) a b) as [ab|e].
+    + apply IH.
+    + apply (vfold_err_acc (merge_val (MMerge sch))).
+Qed.
+
+Lemma vfold_dict : forall vm es a,
+  vfold (merge_val (MDictMerge vm)) (Ok (VDict a)) (map VDict es) =
+  match efold merge_val (fun _ => Some vm) a es with Ok r => Ok (VDict r) | Err e => Err e end.
+Proof.
+  intros vm. induction es as [|b rest IH]; intros a.
+  - reflexivity.
+  - rewrite efold_cons. cbn [map]. unfold vfold. cbn [fold_left mbind]. rewrite merge_val_dict.
+    destruct (merge_entries merge_val (fun _ => Some vm) a b) as [ab|e].
+    + apply IH.
+    + apply (vfold_err_acc (merge_val (MDictMerge vm))).
+Qed.
+
+Lemma wf_obj_inv : forall sch v, wf_val (MMerge sch) v = true ->
+  v = VObj (unobj v) /\ wfe (fun f => lookup f sch) (unobj v).
+Proof.
+  intros sch v H. destruct v; cbn in H; try discriminate.
+  apply andb_true_iff in H. destruct H as [H1 H2]. split; [reflexivity|].
+  split; [apply nodupb_NoDup; exact H1|exact H2].
+Qed.
+
+Lemma wf_dict_inv : forall vm v, wf_val (MDictMerge vm) v = true ->
+  v = VDict (undict v) /\ wfe (fun _ => Some vm) (undict v).
+Proof.
+  intros vm v H. destruct v; cbn in H; try discriminate.
+  apply andb_true_iff in H. destruct H as [H1 H2]. split; [reflexivity|].
+  split; [apply nodupb_NoDup; exact H1|exact H2].
+Qed.
+
+Lemma wf_objs_shape : forall sch l, Forall (fun v => wf_val (MMerge sch) v = true) l ->
+  l = map VObj (map unobj l) /\ Forall (wfe (fun f => lookup f sch)) (map unobj l).
+Proof.
+  intros sch l. induction l as [|v r IH]; intros H.
+  - split; [reflexivity|constructor].
+  - inversion H as [|? ? Hv Hr]. subst. destruct (IH Hr) as [E F].
+    destruct (wf_obj_inv _ _ Hv) as [Ev Wv]. split.
+    + cbn. rewrite <- E. rewrite <- Ev. reflexivity.
+    + cbn. constructor; assumption.
+Qed.
+
+Lemma wf_dicts_shape : forall vm l, Forall (fun v => wf_val (MDictMerge vm) v = true) l ->
+  l = map VDict (map undict l) /\ Forall (wfe (fun _ => Some vm)) (map undict l).
+Proof.
+  intros vm l. induction l as [|v r IH]; intros H.
+  - split; [reflexivity|constructor].
+  - inversion H as [|? ? Hv Hr]. subst. destruct (IH Hr) as [E F].
+    destruct (wf_dict_inv _ _ Hv) as [Ev Wv]. split.
+    + cbn. rewrite <- E. rewrite <- Ev. reflexivity.
+    + cbn. constructor; assumption.
+Qed.
+
+Lemma order_free_merge : forall sch,
+  order_free (MMerge sch) = forallb (fun p => order_free (snd p)) sch.
+Proof.
+  induction sch as [|[g mf] r IH]; cbn.
+  - reflexivity.
+  - f_equal. exact IH.
+Qed.
+
+Lemma order_free_lookup : forall sch f mf,
+  order_free (MMerge sch) = true -> lookup f sch = Some mf -> order_free mf = true.
+Proof.
+  intros sch f mf H L. rewrite order_free_merge in H. rewrite forallb_forall in H.
+  apply lookup_In in L. apply (H _ L).
+Qed.
+
+Theorem nfold_perm : forall m,
+  order_free m = true ->
+  forall l l', Forall (fun v => wf_val m v = true) l -> Permutation l l' ->
+  req true m (nfold (merge_val m) l) (nfold (merge_val m) l').
+Proof.
+  induction m as [| | | | | |sch IHsch|vm IHvm] using merger_ind'; intros HF l l' HW HP.
+  - apply nfold_perm_fc; assumption.
+  - apply nfold_perm_fb; assumption.
+  - discriminate.
+  - discriminate.
+  - apply nfold_perm_cc; assumption.
+  - apply nfold_perm_un; assumption.
+  - (* Merge *)
+    destruct l as [|v rest].
+    { apply Permutation_nil in HP. subst. cbn. reflexivity. }
+    destruct (perm_cons_inv_shape _ _ _ _ HP) as [v' [rest' El]]. subst l'.
+    pose proof (Permutation_Forall HP HW) as HW'.
+    destruct (wf_objs_shape _ _ HW) as [E W]. destruct (wf_objs_shape _ _ HW') as [E' W'].
+    pose proof (Permutation_map unobj HP) as HP2.
+    rewrite E, E'. cbn [map] in *. cbn [nfold]. rewrite !vfold_obj.
+    assert (eres_eq (field_merger (MMerge sch))
+              (efold merge_val (fun f => lookup f sch) (unobj v) (map unobj rest))
+              (efold merge_val (fun f => lookup f sch) (unobj v') (map unobj rest'))) as R.
+    { apply entries_perm; try assumption.
+      - intros f m Hm. cbn. rewrite Hm. reflexivity.
+      - intros f m Hm. pose proof (Forall_lookup merger (fun mf => order_free mf = true ->
+            forall l l', Forall (fun v => wf_val mf v = true) l -> Permutation l l' ->
+            req true mf (nfold (merge_val mf) l) (nfold (merge_val mf) l')) f sch m IHsch Hm) as IHm.
+        cbv beta in IHm.
+        apply IHm. eapply order_free_lookup; eassumption. }
+    destruct (efold merge_val (fun f => lookup f sch) (unobj v) (map unobj rest));
+      destruct (efold merge_val (fun f => lookup f sch) (unobj v') (map unobj rest')); cbn in R; try exact R.
+    destruct R as [R1 R2]. cbn. rewrite R1, R2. reflexivity.
+  - (* DictMerge *)
+    destruct l as [|v rest].
+    { apply Permutation_nil in HP. subst. cbn. reflexivity. }
+    destruct (perm_cons_inv_shape _ _ _ _ HP) as [v' [rest' El]]. subst l'.
+    pose proof (Permutation_Forall HP HW) as HW'.
+    destruct (wf_dicts_shape _ _ HW) as [E W]. destruct (wf_dicts_shape _ _ HW') as [E' W'].
+    pose proof (Permutation_map undict HP) as HP2.
+    rewrite E, E'. cbn [map] in *. cbn [nfold]. rewrite !vfold_dict.
+    assert (eres_eq (fun _ => vm)
+              (efold merge_val (fun _ => Some vm) (undict v) (map undict rest))
+              (efold merge_val (fun _ => Some vm) (undict v') (map undict rest'))) as R.
+    { apply entries_perm; try assumption.
+      - intros f m Hm. injection Hm as Hm. exact Hm.
+      - intros f m Hm. injection Hm as Hm. subst m. apply IHvm. exact HF. }
+    destruct (efold merge_val (fun _ => Some vm) (undict v) (map undict rest));
+      destruct (efold merge_val (fun _ => Some vm) (undict v') (map undict rest')); cbn in R; try exact R.
+    destruct R as [R1 R2]. cbn. rewrite R1, R2. reflexivity.
+Qed.
+
+(* ---- statements about merge / merge_all ---------------------------------------------------------- *)
+
+Lemma merge_is_merge_entries : forall sch a b,
+  merge sch a b = merge_entries merge_val (fun f => lookup f sch) a b.
+Proof.
+  intros sch a b. unfold merge. rewrite merge_val_obj.
+  destruct (merge_entries merge_val (fun f => lookup f sch) a b); reflexivity.
+Qed.
+
+Lemma merge_all_efold : forall sch others a,
+  merge_all sch a others = efold merge_val (fun f => lookup f sch) a others.
+Proof.
+  intros sch. induction others as [|b rest IH]; intros a.
+  - reflexivity.
+  - rewrite efold_cons. cbn. rewrite merge_is_merge_entries.
+    destruct (merge_entries merge_val (fun f => lookup f sch) a b); [apply IH|reflexivity].
+Qed.
+
+Lemma wf_obj_wfe : forall sch a, wf_obj sch a = true -> wfe (fun f => lookup f sch) a.
+Proof.
+  intros sch a H. unfold wf_obj in H. apply andb_true_iff in H. destruct H as [_ H].
+  destruct (wf_obj_inv _ _ H) as [_ W]. exact W.
+Qed.
+
+Theorem merge_list_perm : forall sch objs objs',
+  order_free (MMerge sch) = true ->
+  Forall (fun a => wf_obj sch a = true) objs ->
+  Permutation objs objs' ->
+  same_mod_concat sch (merge_list sch objs) (merge_list sch objs') = true.
+Proof.
+  intros sch objs objs' HF HW HP. destruct objs as [|a rest].
+  - apply Permutation_nil in HP. subst. reflexivity.
+  - destruct (perm_cons_inv_shape _ _ _ _ HP) as [a' [rest' El]]. subst objs'.
+    cbn [merge_list]. rewrite !merge_all_efold.
+    assert (eres_eq (field_merger (MMerge sch))
+              (efold merge_val (fun f => lookup f sch) a rest)
+              (efold merge_val (fun f => lookup f sch) a' rest')) as R.
+    { apply entries_perm.
+      - intros f m Hm. cbn. rewrite Hm. reflexivity.
+      - intros f m Hm l l' Hl Hp. apply nfold_perm; try assumption.
+        eapply order_free_lookup; eassumption.
+      - eapply Forall_impl; [|exact HW]. intros x Hx. apply wf_obj_wfe. exact Hx.
+      - exact HP. }
+    destruct (efold merge_val (fun f => lookup f sch) a rest);
+      destruct (efold merge_val (fun f => lookup f sch) a' rest'); cbn in R; try contradiction; try reflexivity.
+    destruct R as [R1 R2]. cbn. rewrite R1, R2. reflexivity.
+Qed.
+
+Theorem merge_comm_mod_concat : forall sch a b,
+  order_free (MMerge sch) = true -> wf_obj sch a = true -> wf_obj sch b = true ->
+  same_mod_concat sch (merge sch a b) (merge sch b a) = true.
+Proof.
+  intros sch a b HF Ha Hb.
+  pose proof (merge_list_perm sch [a; b] [b; a] HF) as H.
+  cbn [merge_list merge_all] in H.
+  assert (forall r : res entries, match r with Ok ab => Ok ab | Err e => Err e end = r) as Eta
+    by (intros r; destruct r; reflexivity).
+  rewrite !Eta in H. apply H.
+  - constructor; [exact Ha|constructor; [exact Hb|constructor]].
+  - apply perm_swap.
+Qed.
+
+(* ---- reflexivity of veqb, preservation of well-formedness ----------------------------------------- *)
+
+Lemma wf_entries_intro : forall (rec : merger -> value -> bool) mof r,
+  (forall f v, In (f, v) r -> exists m, mof f = Some m /\ rec m v = true) ->
+  wf_entries rec mof r = true.
+Proof.
+  intros rec mof r. induction r as [|[f v] rest IH]; intros H; cbn.
+  - reflexivity.
+  - destruct (H f v (or_introl eq_refl)) as [m [Hm Hv]]. rewrite Hm, Hv. cbn.
+    apply IH. intros g w Hin. apply H. right. exact Hin.
+Qed.
+
+Lemma NoDup_nodupb : forall l, NoDup l -> nodupb l = true.
+Proof.
+  induction l as [|x r IH]; intros H; cbn.
+  - reflexivity.
+  - inversion H as [|? ? Hn Hr]. subst. rewrite (IH Hr), andb_true_r. apply negb_true_iff.
+    destruct (existsb (String.eqb x) r) eqn:E; [|reflexivity].
+    apply existsb_exists in E. destruct E as [y [Hy Ey]]. apply String.eqb_eq in Ey. subst.
+    contradiction.
+Qed.
+
+Lemma veqb_refl : forall cm m v, wf_val m v = true -> veqb cm m v v = true.
+Proof.
+  intros cm. induction m as [| | | | | |sch IHsch|vm IHvm] using merger_ind'; intros v H.
+  - apply veqb_of_value_eqb; [discriminate|]. apply value_eqb_refl. eapply wf_plain; [|exact H]. exact I.
+  - apply veqb_of_value_eqb; [discriminate|]. apply value_eqb_refl. eapply wf_plain; [|exact H]. exact I.
+  - apply veqb_of_value_eqb; [discriminate|]. apply value_eqb_refl. eapply wf_plain; [|exact H]. exact I.
+  - apply veqb_of_value_eqb; [discriminate|]. apply value_eqb_refl. eapply wf_plain; [|exact H]. exact I.
+  - destruct v; cbn in H; try discriminate. cbn. destruct cm.
+    + apply perm_eqb_of_Permutation. apply Permutation_refl.
+    + apply atoms_eqb_eq. reflexivity.
+  - destruct v; cbn in H; try discriminate. cbn.
+    assert (subset l l = true) as S by (apply subset_spec; auto). rewrite S. reflexivity.
+  - destruct (wf_obj_inv _ _ H) as [E [ND W]]. rewrite E. cbn.
+    destruct (entries_veqb_intro (veqb cm) (field_merger (MMerge sch)) (unobj v) (unobj v) ND) as [R1 R2].
+    + intros f. destruct (lookup f (unobj v)) as [w|] eqn:L; [|exact I].
+      destruct (wf_entries_lookup _ _ _ _ _ W L) as [mf [Hm Hw]]. cbn. rewrite Hm.
+      apply (Forall_lookup merger (fun mf => forall v, wf_val mf v = true -> veqb cm mf v v = true)
+                           f sch mf IHsch Hm). exact Hw.
+    + rewrite R1, R2. reflexivity.
+  - destruct (wf_dict_inv _ _ H) as [E [ND W]]. rewrite E. cbn.
+    destruct (entries_veqb_intro (veqb cm) (fun _ => vm) (undict v) (undict v) ND) as [R1 R2].
+    + intros f. destruct (lookup f (undict v)) as [w|] eqn:L; [|exact I].
+      destruct (wf_entries_lookup _ _ _ _ _ W L) as [mf [Hm Hw]]. injection Hm as Hm. subst mf.
+      apply IHvm. exact Hw.
+    + rewrite R1, R2. reflexivity.
+Qed.
+
+Lemma merge_entries_wf : forall mof fx fy r,
+  (forall f m x y v, mof f = Some m -> wf_val m x = true -> wf_val m y = true ->
+                     merge_val m x y = Ok v -> wf_val m v = true) ->
+  wfe mof fx -> wfe mof fy ->
+  merge_entries merge_val mof fx fy = Ok r -> wfe mof r.
+Proof.
+  intros mof fx fy r IHf [Nx Wx] [Ny Wy] H.
+  assert (NoDup (keys r)) as Nr by (apply (merge_entries_nodup merge_val mof fx fy r Nx Ny H)).
+  split; [exact Nr|]. apply wf_entries_intro. intros f v Hin.
+  pose proof (NoDup_In_lookup _ _ _ _ Nr Hin) as L.
+  pose proof (merge_entries_lookup merge_val mof _ _ _ H f) as O. rewrite L in O.
+  destruct (lookup f fx) as [vx|] eqn:Ex; destruct (lookup f fy) as [vy|] eqn:Ey; cbn in O.
+  - destruct (wf_entries_lookup _ _ _ _ _ Wx Ex) as [m [Hm Hvx]].
+    destruct (wf_entries_lookup _ _ _ _ _ Wy Ey) as [m' [Hm' Hvy]].
+    rewrite Hm in Hm'. injection Hm' as Hm'. subst m'. rewrite Hm in O.
+    destruct (merge_val m vx vy) as [w|e] eqn:E; [|discriminate]. injection O as O. subst w.
+    exists m. split; [exact Hm|]. apply (IHf f m vx vy v Hm Hvx Hvy E).
+  - destruct (wf_entries_lookup _ _ _ _ _ Wx Ex) as [m [Hm Hvx]]. injection O as O. subst.
+    exists m. split; assumption.
+  - destruct (wf_entries_lookup _ _ _ _ _ Wy Ey) as [m [Hm Hvy]]. rewrite Hm in O. injection O as O. subst.
+    exists m. split; assumption.
+  - discriminate.
+Qed.
+
+Lemma wfe_wf_obj : forall sch r, wfe (fun f => lookup f sch) r -> wf_val (MMerge sch) (VObj r) = true.
+Proof. intros sch r [N W]. cbn. rewrite (NoDup_nodupb _ N). exact W. Qed.
+
+Lemma wfe_wf_dict : forall vm r, wfe (fun _ => Some vm) r -> wf_val (MDictMerge vm) (VDict r) = true.
+Proof. intros vm r [N W]. cbn. rewrite (NoDup_nodupb _ N). exact W. Qed.
+
+Lemma merge_val_wf : forall m x y v,
+  wf_val m x = true -> wf_val m y = true -> merge_val m x y = Ok v -> wf_val m v = true.
+Proof.
+  induction m as [| | | | | |sch IHsch|vm IHvm] using merger_ind'; intros x y v Hx Hy H.
+  - assert (merge_val MForbidChange x y = if value_eqb x y then Ok x else Err EForbidden) as E
+      by (destruct x; reflexivity).
+    rewrite E in H. destruct (value_eqb x y); [|discriminate]. injection H as H. subst. exact Hx.
+  - destruct x; discriminate.
+  - assert (merge_val MUseFirst x y = Ok x) as E by (destruct x; reflexivity).
+    rewrite E in H. injection H as H. subst. exact Hx.
+  - assert (merge_val MUseLast x y = Ok y) as E by (destruct x; reflexivity).
+    rewrite E in H. injection H as H. subst. exact Hy.
+  - destruct x; cbn in Hx; try discriminate. destruct y; cbn in Hy; try discriminate.
+    cbn in H. injection H as H. subst. reflexivity.
+  - destruct x; cbn in Hx; try discriminate. destruct y; cbn in Hy; try discriminate.
+    cbn in H. injection H as H. subst. reflexivity.
+  - destruct (wf_obj_inv _ _ Hx) as [Ex Wx]. destruct (wf_obj_inv _ _ Hy) as [Ey Wy].
+    rewrite Ex, Ey in H. rewrite merge_val_obj in H.
+    destruct (merge_entries merge_val (fun f => lookup f sch) (unobj x) (unobj y)) as [r|e] eqn:E; [|discriminate].
+    injection H as H. subst v. apply wfe_wf_obj.
+    eapply merge_entries_wf; [|exact Wx|exact Wy|exact E].
+    intros f m x0 y0 v0 Hm. 
+    apply (Forall_lookup merger (fun mf => forall x y v, wf_val mf x = true -> wf_val mf y = true ->
+             merge_val mf x y = Ok v -> wf_val mf v = true) f sch m IHsch Hm).
+  - destruct (wf_dict_inv _ _ Hx) as [Ex Wx]. destruct (wf_dict_inv _ _ Hy) as [Ey Wy].
+    rewrite Ex, Ey in H. rewrite merge_val_dict in H.
+    destruct (merge_entries merge_val (fun _ => Some vm) (undict x) (undict y)) as [r|e] eqn:E; [|discriminate].
+    injection H as H. subst v. apply wfe_wf_dict.
+    eapply merge_entries_wf; [|exact Wx|exact Wy|exact E].
+    intros f m x0 y0 v0 Hm. injection Hm as Hm. subst m. apply IHvm.
+Qed.
+
+(* ---- associativity (including definedness) ---------------------------------------------------------- *)
+
+Definition vreq (cm : bool) (m : merger) (a b : res value) : Prop :=
+  match a, b with
+  | Ok u, Ok v => veqb cm m u v = true
+  | Err _, Err _ => True
+  | _, _ => False
+  end.
+
+Definition assoc_at (m : merger) : Prop :=
+  forall x y z, wf_val m x = true -> wf_val m y = true -> wf_val m z = true ->
+    vreq false m (mbind (merge_val m x y) (fun u => merge_val m u z))
+                 (mbind (merge_val m y z) (fun v => merge_val m x v)).
+
+Section AssocEntries.
+  Variable mof : string -> option merger.
+  Variable mofd : string -> merger.
+  Hypothesis Hmofd : forall f m, mof f = Some m -> mofd f = m.
+  Hypothesis IHf : forall f m, mof f = Some m -> assoc_at m.
+  Variables fa fb fc : entries.
+  Hypothesis Wa : wfe mof fa.
+  Hypothesis Wb : wfe mof fb.
+  Hypothesis Wc : wfe mof fc.
+
+  Definition om (f : string) := omerge merge_val (mof f).
+  Definition oL (f : string) : res (option value) :=
+    mbind (om f (lookup f fa) (lookup f fb)) (fun o => om f o (lookup f fc)).
+  Definition oR (f : string) : res (option value) :=
+    mbind (om f (lookup f fb) (lookup f fc)) (fun o => om f (lookup f fa) o).
+  Definition EL : res entries :=
+    mbind (merge_entries merge_val mof fa fb) (fun ab => merge_entries merge_val mof ab fc).
+  Definition ER : res entries :=
+    mbind (merge_entries merge_val mof fb fc) (fun bc => merge_entries merge_val mof fa bc).
+
+  Lemma field_assoc : forall f,
+    match mof f with
+    | Some m => req false m (oL f) (oR f)
+    | None => oL f = Ok None /\ oR f = Ok None
+    end.
+  Proof.
+    intros f. unfold oL, oR, om. destruct Wa as [_ Wa']. destruct Wb as [_ Wb']. destruct Wc as [_ Wc'].
+    destruct (mof f) as [m|] eqn:Hm.
+    - assert (forall e v, wf_entries wf_val mof e = true -> lookup f e = Some v -> wf_val m v = true) as WV.
+      { intros e v We Le. destruct (wf_entries_lookup _ _ _ _ _ We Le) as [m' [Hm' Hv]].
+        rewrite Hm in Hm'. injection Hm' as Hm'. subst. exact Hv. }
+      destruct (lookup f fa) as [x|] eqn:Ea; destruct (lookup f fb) as [y|] eqn:Eb;
+        destruct (lookup f fc) as [z|] eqn:Ec; cbn.
+      + pose proof (IHf f m Hm x y z (WV _ _ Wa' Ea) (WV _ _ Wb' Eb) (WV _ _ Wc' Ec)) as A.
+        destruct (merge_val m x y) as [u|e1]; destruct (merge_val m y z) as [v|e2]; cbn in *.
+        * destruct (merge_val m u z); destruct (merge_val m x v); cbn; exact A.
+        * destruct (merge_val m u z); cbn; exact A.
+        * destruct (merge_val m x v); cbn; exact A.
+        * exact I.
+      + destruct (merge_val m x y) as [u|e1] eqn:E; cbn; [|exact I].
+        apply veqb_refl. eapply merge_val_wf; [| |exact E]; eauto.
+      + destruct (merge_val m x z) as [u|e1] eqn:E; cbn; [|exact I].
+        apply veqb_refl. eapply merge_val_wf; [| |exact E]; eauto.
+      + apply veqb_refl. eauto.
+      + destruct (merge_val m y z) as [u|e1] eqn:E; cbn; [|exact I].
+        apply veqb_refl. eapply merge_val_wf; [| |exact E]; eauto.
+      + apply veqb_refl. eauto.
+      + apply veqb_refl. eauto.
+      + reflexivity.
+    - assert (forall e, wf_entries wf_val mof e = true -> lookup f e = None) as WN.
+      { intros e We. destruct (lookup f e) as [v|] eqn:Le; [|reflexivity].
+        destruct (wf_entries_lookup _ _ _ _ _ We Le) as [m' [Hm' _]]. rewrite Hm in Hm'. discriminate. }
+      rewrite (WN _ Wa'), (WN _ Wb'), (WN _ Wc'). cbn. split; reflexivity.
+  Qed.
+
+  Lemma EL_ok : forall r, EL = Ok r -> forall f, oL f = Ok (lookup f r).
+  Proof.
+    intros r H f. unfold EL in H. unfold oL, om.
+    destruct (merge_entries merge_val mof fa fb) as [ab|e] eqn:E; [|discriminate]. cbn in H.
+    rewrite (merge_entries_lookup merge_val mof _ _ _ E f). cbn.
+    apply (merge_entries_lookup merge_val mof _ _ _ H f).
+  Qed.
+
+  Lemma ER_ok : forall r, ER = Ok r -> forall f, oR f = Ok (lookup f r).
+  Proof.
+    intros r H f. unfold ER in H. unfold oR, om.
+    destruct (merge_entries merge_val mof fb fc) as [bc|e] eqn:E; [|discriminate]. cbn in H.
+    rewrite (merge_entries_lookup merge_val mof _ _ _ E f). cbn.
+    apply (merge_entries_lookup merge_val mof _ _ _ H f).
+  Qed.
+
+  Lemma EL_err : forall e, EL = Err e -> exists f e', oL f = Err e'.
+  Proof.
+    intros e H. unfold EL in H. unfold oL, om.
+    destruct (merge_entries merge_val mof fa fb) as [ab|e1] eqn:E; cbn in H.
+    - assert (NoDup (keys ab)) as Nab
+          by (apply (merge_entries_nodup merge_val mof fa fb ab (proj1 Wa) (proj1 Wb) E)).
+      destruct (merge_entries_err merge_val mof _ _ _ Nab H) as [f Hf]. exists f, e.
+      rewrite (merge_entries_lookup merge_val mof _ _ _ E f). cbn. exact Hf.
+    - destruct (merge_entries_err merge_val mof _ _ _ (proj1 Wa) E) as [f Hf]. exists f, e1.
+      rewrite Hf. reflexivity.
+  Qed.
+
+  Lemma ER_err : forall e, ER = Err e -> exists f e', oR f = Err e'.
+  Proof.
+    intros e H. unfold ER in H. unfold oR, om.
+    destruct (merge_entries merge_val mof fb fc) as [bc|e1] eqn:E; cbn in H.
+    - destruct (merge_entries_err merge_val mof _ _ _ (proj1 Wa) H) as [f Hf]. exists f, e.
+      rewrite (merge_entries_lookup merge_val mof _ _ _ E f). cbn. exact Hf.
+    - destruct (merge_entries_err merge_val mof _ _ _ (proj1 Wb) E) as [f Hf]. exists f, e1.
+      rewrite Hf. reflexivity.
+  Qed.
+
+  Lemma EL_nodup : forall r, EL = Ok r -> NoDup (keys r).
+  Proof.
+    intros r H. unfold EL in H.
+    destruct (merge_entries merge_val mof fa fb) as [ab|e] eqn:E; [|discriminate]. cbn in H.
+    assert (NoDup (keys ab)) as Nab
+        by (apply (merge_entries_nodup merge_val mof fa fb ab (proj1 Wa) (proj1 Wb) E)).
+    apply (merge_entries_nodup merge_val mof ab fc r Nab (proj1 Wc) H).
+  Qed.
+
+  Definition eres_eq0 (a b : res entries) : Prop :=
+    match a, b with
+    | Ok r, Ok r' => sub_entries (veqb false) mofd r' r = true /\ forallb (fun p => mem (fst p) r) r' = true
+    | Err _, Err _ => True
+    | _, _ => False
+    end.
+
+  Lemma entries_assoc : eres_eq0 EL ER.
+  Proof.
+    destruct EL as [r|e] eqn:E1; destruct ER as [r'|e'] eqn:E2; cbn.
+    - apply entries_veqb_intro; [apply EL_nodup; exact E1|].
+      intros f. pose proof (field_assoc f) as A.
+      rewrite (EL_ok _ E1 f), (ER_ok _ E2 f) in A. destruct (mof f) as [m|] eqn:Hm.
+      + rewrite (Hmofd f m Hm). cbn in A.
+        destruct (lookup f r); destruct (lookup f r'); cbn in A; try discriminate; try exact A; exact I.
+      + destruct A as [A1 A2]. injection A1 as A1. injection A2 as A2. rewrite <- A1, <- A2. exact I.
+    - destruct (ER_err _ E2) as [f [e2 Hf]]. pose proof (field_assoc f) as A.
+      rewrite (EL_ok _ E1 f), Hf in A. destruct (mof f); [exact A|]. destruct A as [_ A]. discriminate.
+    - destruct (EL_err _ E1) as [f [e2 Hf]]. pose proof (field_assoc f) as A.
+      rewrite (ER_ok _ E2 f), Hf in A. destruct (mof f); [exact A|]. destruct A as [A _]. discriminate.
+    - exact I.
+  Qed.
+End AssocEntries.
+
+Theorem merge_val_assoc : forall m, assoc_at m.
+Proof.
+  induction m as [| | | | | |sch IHsch|vm IHvm] using merger_ind'; intros x y z Hx Hy Hz.
+  - (* ForbidChange *)
+    assert (forall a b, merge_val MForbidChange a b = if value_eqb a b then Ok a else Err EForbidden) as E
+      by (intros a b; destruct a; reflexivity).
+    assert (plain x = true) as Px by (eapply wf_plain; [|exact Hx]; exact I).
+    rewrite !E. destruct (value_eqb x y) eqn:Exy; destruct (value_eqb y z) eqn:Eyz; cbn; rewrite ?E.
+    + rewrite Exy. rewrite (value_eqb_trans _ _ _ Exy Eyz). cbn.
+      apply veqb_of_value_eqb; [discriminate|apply value_eqb_refl; exact Px].
+    + destruct (value_eqb x z) eqn:Exz; cbn; [|exact I].
+      rewrite (value_eqb_trans _ _ _ (value_eqb_sym _ _ Exy) Exz) in Eyz. discriminate.
+    + rewrite Exy. exact I.
+    + exact I.
+  - (* Forbid *)
+    assert (forall a b, merge_val MForbid a b = Err EForbidden) as E by (intros a b; destruct a; reflexivity).
+    rewrite !E. cbn. exact I.
+  - assert (forall a b, merge_val MUseFirst a b = Ok a) as E by (intros a b; destruct a; reflexivity).
+    rewrite !E. cbn. rewrite E. apply veqb_refl. exact Hx.
+  - assert (forall a b, merge_val MUseLast a b = Ok b) as E by (intros a b; destruct a; reflexivity).
+    rewrite !E. cbn. rewrite E. apply veqb_refl. exact Hz.
+  - destruct x; cbn in Hx; try discriminate. destruct y; cbn in Hy; try discriminate.
+    destruct z; cbn in Hz; try discriminate. cbn. rewrite app_assoc. apply atoms_eqb_eq. reflexivity.
+  - destruct x; cbn in Hx; try discriminate. destruct y; cbn in Hy; try discriminate.
+    destruct z; cbn in Hz; try discriminate. cbn.
+    apply andb_true_iff. split; apply subset_spec; intros a; rewrite !union_In; tauto.
+  - (* Merge *)
+    destruct (wf_obj_inv _ _ Hx) as [Ex Wx]. destruct (wf_obj_inv _ _ Hy) as [Ey Wy].
+    destruct (wf_obj_inv _ _ Hz) as [Ez Wz]. rewrite Ex, Ey, Ez.
+    pose proof (entries_assoc (fun f => lookup f sch) (field_merger (MMerge sch))) as A.
+    specialize (A (fun f m Hm => ltac:(cbn; rewrite Hm; reflexivity))).
+    specialize (A (fun f m Hm => Forall_lookup merger assoc_at f sch m IHsch Hm)).
+    specialize (A _ _ _ Wx Wy Wz). unfold EL, ER in A. rewrite !merge_val_obj.
+    destruct (merge_entries merge_val (fun f => lookup f sch) (unobj x) (unobj y)) as [ab|e1];
+      destruct (merge_entries merge_val (fun f => lookup f sch) (unobj y) (unobj z)) as [bc|e2];
+      cbn in *; rewrite ?merge_val_obj.
+    + destruct (merge_entries merge_val (fun f => lookup f sch) ab (unobj z));
+        destruct (merge_entries merge_val (fun f => lookup f sch) (unobj x) bc); cbn in *; try exact A.
+      destruct A as [A1 A2]. rewrite A1, A2. reflexivity.
+    + destruct (merge_entries merge_val (fun f => lookup f sch) ab (unobj z)); cbn in *; exact A.
+    + destruct (merge_entries merge_val (fun f => lookup f sch) (unobj x) bc); cbn in *; exact A.
+    + exact I.
+  - (* DictMerge *)
+    destruct (wf_dict_inv _ _ Hx) as [Ex Wx]. destruct (wf_dict_inv _ _ Hy) as [Ey Wy].
+    destruct (wf_dict_inv _ _ Hz) as [Ez Wz]. rewrite Ex, Ey, Ez.
+    pose proof (entries_assoc (fun _ => Some vm) (fun _ => vm)) as A.
+    specialize (A (fun f m Hm => ltac:(injection Hm as Hm; exact Hm))).
+    specialize (A (fun f m Hm => ltac:(injection Hm as Hm; subst m; exact IHvm))).
+    specialize (A _ _ _ Wx Wy Wz). unfold EL, ER in A. rewrite !merge_val_dict.
+    destruct (merge_entries merge_val (fun _ => Some vm) (undict x) (undict y)) as [ab|e1];
+      destruct (merge_entries merge_val (fun _ => Some vm) (undict y) (undict z)) as [bc|e2];
+      cbn in *; rewrite ?merge_val_dict.
+    + destruct (merge_entries merge_val (fun _ => Some vm) ab (undict z));
+        destruct (merge_entries merge_val (fun _ => Some vm) (undict x) bc); cbn in *; try exact A.
+      destruct A as [A1 A2]. rewrite A1, A2. reflexivity.
+    + destruct (merge_entries merge_val (fun _ => Some vm) ab (undict z)); cbn in *; exact A.
+    + destruct (merge_entries merge_val (fun _ => Some vm) (undict x) bc); cbn in *; exact A.
+    + exact I.
+Qed.
+
+Theorem merge_assoc : forall sch a b c,
+  wf_obj sch a = true -> wf_obj sch b = true -> wf_obj sch c = true ->
+  same_exact sch (bind (merge sch a b) (fun ab => merge sch ab c))
+                 (bind (merge sch b c) (fun bc => merge sch a bc)) = true.
+Proof.
+  intros sch a b c Ha Hb Hc.
+  assert (forall o, wf_obj sch o = true -> wf_val (MMerge sch) (VObj o) = true) as W.
+  { intros o H. unfold wf_obj in H. apply andb_true_iff in H. apply H. }
+  pose proof (merge_val_assoc (MMerge sch) (VObj a) (VObj b) (VObj c) (W _ Ha) (W _ Hb) (W _ Hc)) as A.
+  rewrite !merge_val_obj in A. rewrite !merge_is_merge_entries.
+  destruct (merge_entries merge_val (fun f => lookup f sch) a b) as [ab|e1];
+    destruct (merge_entries merge_val (fun f => lookup f sch) b c) as [bc|e2];
+    cbn in *; rewrite ?merge_val_obj in A; rewrite ?merge_is_merge_entries.
+  - destruct (merge_entries merge_val (fun f => lookup f sch) ab c);
+      destruct (merge_entries merge_val (fun f => lookup f sch) a bc); cbn in *;
+        try contradiction; try reflexivity; exact A.
+  - destruct (merge_entries merge_val (fun f => lookup f sch) ab c); cbn in *; try contradiction; reflexivity.
+  - destruct (merge_entries merge_val (fun f => lookup f sch) a bc); cbn in *; try contradiction; reflexivity.
+  - reflexivity.
+Qed.
